@@ -68,6 +68,7 @@ type errState struct {
 	idx  int
 	vals map[ssa.Value]bool
 	mem  map[*ssa.Alloc]bool
+	done map[*ssa.BasicBlock]bool // single-iteration loops (range over a map under len(m)==1) whose one iteration was taken
 }
 
 func setKey(vals map[ssa.Value]bool, mem map[*ssa.Alloc]bool) string {
@@ -84,7 +85,14 @@ func setKey(vals map[ssa.Value]bool, mem map[*ssa.Alloc]bool) string {
 
 // errPathSearch returns a description of a path on which errv is dropped, or "" if every path consumes it.
 func (p *Prog) errPathSearch(fn *ssa.Function, call ssa.Instruction, errv ssa.Value) (string, []string) {
-	start := errState{blk: call.Block(), idx: indexIn(call) + 1, vals: map[ssa.Value]bool{errv: true}, mem: map[*ssa.Alloc]bool{}}
+	start := errState{blk: call.Block(), idx: indexIn(call) + 1, vals: map[ssa.Value]bool{errv: true}, mem: map[*ssa.Alloc]bool{}, done: map[*ssa.BasicBlock]bool{}}
+	// single-iteration loops of fn
+	single := map[*ssa.BasicBlock]map[*ssa.BasicBlock]bool{}
+	for _, l := range findMapLoops(fn) {
+		if l.next != nil && p.lenIsOneGuard(l) {
+			single[l.header] = l.body
+		}
+	}
 	// if errv is an Extract, begin after the Extract
 	if ex, ok := errv.(*ssa.Extract); ok && ex.Block() == call.Block() {
 		if i := indexIn(ex); i+1 > start.idx {
@@ -102,7 +110,7 @@ func (p *Prog) errPathSearch(fn *ssa.Function, call ssa.Instruction, errv ssa.Va
 		fr := stack[len(stack)-1]
 		stack = stack[:len(stack)-1]
 		st := fr.st
-		key := fmt.Sprintf("%d:%d:%s", st.blk.Index, st.idx, setKey(st.vals, st.mem))
+		key := fmt.Sprintf("%d:%d:%s:%d", st.blk.Index, st.idx, setKey(st.vals, st.mem), len(st.done))
 		if visited[key] {
 			continue
 		}
@@ -233,8 +241,18 @@ func (p *Prog) errPathSearch(fn *ssa.Function, call ssa.Instruction, errv ssa.Va
 			for a := range mem {
 				nm[a] = true
 			}
+			nd := map[*ssa.BasicBlock]bool{}
+			for h := range st.done {
+				nd[h] = true
+			}
+			if body, ok := single[s]; ok && body[st.blk] && s != st.blk {
+				nd[s] = true // back edge of a loop that runs exactly once
+			}
+			if body, ok := single[st.blk]; ok && st.done[st.blk] && body[s] && s != st.blk {
+				continue // a second iteration is infeasible under len(m) == 1
+			}
 			np := append(append([]string{}, fr.path...), fmt.Sprintf("block %d -> %d (%s)", st.blk.Index, s.Index, p.Pos(firstPos(s))))
-			stack = append(stack, frame{errState{blk: s, idx: 0, vals: nv, mem: nm}, np})
+			stack = append(stack, frame{errState{blk: s, idx: 0, vals: nv, mem: nm, done: nd}, np})
 		}
 	}
 	return "", nil
